@@ -70,7 +70,19 @@ class AliasFlow:
             if e.attr in ("T", "real", "imag", "flat"):
                 return self.may_alias(f, e.value, owned)
             # attribute / property of a caller-owned object: the object's arrays are the caller's
-            return self.may_alias(f, e.value, owned) and e.attr not in ("shape", "dtype", "ndim", "size", "name", "value")
+            if not self.may_alias(f, e.value, owned) or e.attr in ("shape", "dtype", "ndim", "size", "name", "value"):
+                return False
+            # a property of a package class: what it returns is known from its summary / annotation
+            props = [m for m in self.prog.methods_named(e.attr) if getattr(m, "is_property", False)]
+            if props and not any(isinstance(c, ast.AST) for c in ()):
+                def scalar(m):
+                    r = m.node.returns
+                    txt = norm(r) if r is not None else ""
+                    return txt in ("int", "bool", "float", "str") or txt.startswith(("tuple[int", "list[int", "list[str", "tuple[str"))
+
+                if all(scalar(m) or (-1 not in self.summary.get(m.qual, {-1})) for m in props):
+                    return False
+            return True
         if isinstance(e, ast.IfExp):
             return self.may_alias(f, e.body, owned) or self.may_alias(f, e.orelse, owned)
         if isinstance(e, (ast.Tuple, ast.List)):
